@@ -15,8 +15,19 @@ ARN_FIELDS = ["partition", "service", "region", "account-id", "resource-type", "
 
 
 def ret_expr(fn: ast.FunctionDef) -> Optional[ast.expr]:
+    """The single returned expression with the function's locals substituted (path enumeration)."""
     rets = [n for n in ast.walk(fn) if isinstance(n, ast.Return) and n.value is not None]
-    return strip_cast(rets[0].value) if len(rets) == 1 else None
+    if len(rets) != 1:
+        return None
+    try:
+        from ..core.paths import PathWalker, is_unknown
+
+        ps = [p for p in PathWalker(None, None).paths(fn) if p.kind == "return" and p.value is not None]
+        if len(ps) == 1 and not is_unknown(ps[0].value):
+            return strip_cast(ps[0].value)
+    except (OverflowError, Exception):  # noqa: BLE001
+        pass
+    return strip_cast(rets[0].value)
 
 
 def unwrap(e: ast.expr, *names: str) -> ast.expr:
@@ -275,10 +286,20 @@ def check_glob(repo: Repo, run: Run, rule: str) -> None:
         core = strip_cast(core.left)
     if isinstance(core, ast.Call):
         d = dotted(core.func) or ""
-        args = [ast.unparse(strip_cast(a)) for a in core.args]
+        def bare(a: ast.expr) -> str:
+            a = strip_cast(a)
+            while isinstance(a, ast.Call) and len(a.args) == 1 and (dotted(a.func) or "").split(".")[-1] in ("normcase", "str", "StringType"):
+                a = strip_cast(a.args[0])
+            return ast.unparse(a)
+
+        args = [bare(a) for a in core.args]
         if d.split(".")[-1] in ("fnmatch", "fnmatchcase") and len(args) == 2:
-            verdict = args == gp
-            why = "shell-pattern match of (text, pattern)" if verdict else f"the arguments are passed as {args}: fnmatch takes (text, pattern)"
+            if args == gp:
+                verdict, why = True, "shell-pattern match of (text, pattern)"
+            elif args == gp[::-1]:
+                verdict, why = False, f"the arguments are passed as {args}: fnmatch takes (text, pattern)"
+            else:
+                verdict, why = None, f"the arguments {args} were not recognised as (text, pattern)"
         elif d in ("re.search", "re.match", "re.fullmatch") and len(core.args) == 2 and isinstance(strip_cast(core.args[0]), ast.Call) \
                 and (dotted(strip_cast(core.args[0]).func) or "").endswith("translate"):
             targ = [ast.unparse(a) for a in strip_cast(core.args[0]).args]
@@ -433,12 +454,27 @@ def check(repo: Repo, run: Run) -> None:
     us = c7.func("unique_size")
     e = ret_expr(us)
     core = unwrap(e, "IntType", "int") if e is not None else None
-    ok = isinstance(core, ast.Call) and dotted(core.func) == "len" and isinstance(strip_cast(core.args[0]), ast.Call) and dotted(strip_cast(core.args[0]).func) in ("set", "frozenset")
-    run.ob("C17.X4", "unique_size", ok, f"unique_size = `{ast.unparse(e) if e is not None else '?'}`; definition: number of distinct elements (len(set(x)))", c7.loc(us))
+    shown_us = ast.unparse(e) if e is not None else "?"
+    if isinstance(core, ast.Call) and dotted(core.func) == "len" and core.args:
+        arg0 = strip_cast(core.args[0])
+        if isinstance(arg0, ast.Call) and dotted(arg0.func) in ("set", "frozenset"):
+            run.ob("C17.X4", "unique_size", True, f"unique_size = `{shown_us}`; definition: number of distinct elements (len(set(x)))", c7.loc(us))
+        elif isinstance(arg0, ast.Name) and arg0.id in {a.arg for a in us.args.args}:
+            run.ob("C17.X4", "unique_size", False, f"unique_size = `{shown_us}` counts all elements; definition: number of distinct elements (len(set(x)))", c7.loc(us))
+        else:
+            run.inconclusive("C17.X4", "unique_size", f"`{shown_us}` was not recognised as a count of distinct elements")
+    else:
+        run.inconclusive("C17.X4", "unique_size", f"`{shown_us}` was not recognised as a count of distinct elements")
     nz = c7.func("normalize")
     e = ret_expr(nz)
     meths = [n.func.attr for n in ast.walk(e) if isinstance(n, ast.Call) and isinstance(n.func, ast.Attribute) and n.func.attr[0].islower()] if e is not None else []
-    run.ob("C17.X4", "normalize", sorted(meths) == ["lower", "strip"], f"normalize applies {meths}; definition: trim and lower-case", c7.loc(nz))
+    WRONG_CASE = {"casefold", "upper", "title", "capitalize", "swapcase", "lstrip", "rstrip"}
+    if sorted(meths) == ["lower", "strip"]:
+        run.ob("C17.X4", "normalize", True, f"normalize applies {meths}; definition: trim and lower-case", c7.loc(nz))
+    elif set(meths) & WRONG_CASE or (meths and set(meths) < {"lower", "strip"}):
+        run.ob("C17.X4", "normalize", False, f"normalize applies {meths}; definition: trim (both ends) and lower-case (str.lower)", c7.loc(nz))
+    else:
+        run.inconclusive("C17.X4", "normalize", f"normalize applies {meths or 'no recognised string method'}: not recognised as trim and lower-case")
     check_glob(repo, run, "C17.X4")
     ky = c7.func("key")
     s = ast.unparse(ky)
